@@ -432,6 +432,47 @@ func runC15(c *core.Ctx) {
 			}
 		}
 	}
+	// 1c. ids of every length: after ten other headings, three different headings whose ids are exactly L bytes long and a
+	// repeated heading whose second id reaches L bytes through its suffix - for every L up to 140 and at the boundary sizes
+	// beyond (ids assembled in a fixed-size scratch area, copied or not depending on their length, show only at that length)
+	kl := 0
+	var lens []int
+	for l := 1; l <= 140; l++ {
+		lens = append(lens, l)
+	}
+	for _, l := range wl.BoundarySizes {
+		if l > 140 && l < 1100 {
+			lens = append(lens, l)
+		}
+	}
+	for _, l := range lens {
+		for v := 0; v < 2; v++ {
+			kl++
+			if !c.Mine(kl) {
+				continue
+			}
+			rr := newRand(core.SeedFor(c.Seed, "c15len", kl))
+			seq := make([]string, 0, 18)
+			for j := 0; j < 10; j++ {
+				seq = append(seq, all[rr.Intn(len(all))])
+			}
+			body := func(n int, tail string) string {
+				if v == 1 && n >= 2 {
+					return "é" + strings.Repeat("x", n-2) + tail // the same byte length with a two-byte character in front
+				}
+				return strings.Repeat("x", n) + tail
+			}
+			for j := 0; j < 3; j++ {
+				seq = append(seq, body(l-1, string(rune('a'+j))))
+			}
+			if l >= 3 {
+				seq = append(seq, body(l-3, "u"), body(l-3, "u"), body(l-3, "u"))
+			}
+			spec := specs[kl%len(specs)]
+			c15Check(c, pool, spec, c15Build(rr, seq, spec))
+			c.Count("documents_with_ids_of_a_chosen_length", 1)
+		}
+	}
 	// 2. random longer multisets (many duplicates force long suffix probing)
 	n2 := c.PerShard(c.N(120000, 6000000))
 	for i := 0; i < n2 && !c.Saturated(); i++ {
